@@ -83,8 +83,8 @@ type Schema struct {
 	// in data they are the main module's like any other
 	SubName  string
 	SubNodes map[string]bool
-	Mod     *meta.Module
-	Extra   string // extra module-level text (features, identities...)
+	Mod      *meta.Module
+	Extra    string // extra module-level text (features, identities...)
 }
 
 // DataParent returns the nearest ancestor that holds data (container or list), skipping choice/case.
@@ -588,9 +588,9 @@ type GenOpts struct {
 	NonConfig    bool
 	Types        []string // allowed leaf base types
 	KeyTypes     []string
-	Aug          bool // contribute some nodes from an augmenting module
-	Sub          bool // write some top-level nodes in a submodule (not together with Aug)
-	AugSub       bool // with Aug: the augments are written in a submodule of the augmenting module
+	Aug          bool   // contribute some nodes from an augmenting module
+	Sub          bool   // write some top-level nodes in a submodule (not together with Aug)
+	AugSub       bool   // with Aug: the augments are written in a submodule of the augmenting module
 	Prefix       string // prefix of the main module ("" = its name, m)
 	ModName      string // name of the main module ("" = m)
 	Presence     bool
